@@ -1071,9 +1071,34 @@ def star_ring_cases(rnd):
         yield m, (n, ends, 9)
 
 
+def big_v2000_case(rnd):
+    """a chain of 100-130 atoms with isotope / charge / radical entries on 7-24 atoms, most of them with three-digit indices, so that full
+    property lines (up to 8 entries) carry wide indices in every slot"""
+    n = rnd.randint(100, 130)
+    atoms = [{"sym": "C", "x": round(i * 1.5, 4), "y": 0.0, "z": 0.0, "chg": 0, "rad": 0, "mass": 0} for i in range(n)]
+    for i in rnd.sample(range(n), rnd.randint(7, 24)) + rnd.sample(range(99, n), min(8, n - 99)):
+        k = rnd.random()
+        if k < .5:
+            atoms[i]["mass"] = rnd.choice([13, 14, 11])
+        elif k < .75:
+            atoms[i]["chg"] = rnd.choice([-1, 1, 2, -15, 15])
+        else:
+            atoms[i]["rad"] = rnd.choice([1, 2, 3])
+    return molgen.Mol(atoms, [(i, i + 1, 1) for i in range(n - 1)])
+
+
 def gen_c08(T, tier, seed, budget, out: Outcome):
     rnd = random.Random(seed)
     t0 = time.time()
+    for _ in range(6 if tier == "quick" else 60):
+        m = big_v2000_case(rnd)
+        mode = {"chg_lines": True, "stale_codes": False, "zeros": False, "extras": False}
+        v2 = molgen.render_v2000(rnd, m, mode, max_per_line=rnd.choice([8, 8, 7]))
+        m3 = molgen.Mol([{k: v for k, v in a.items() if k in ("sym", "x", "y", "z") or v} for a in m.atoms], m.bonds)
+        v3 = molgen.render_v3000(rnd, m3, cuts=False, extra_kw=False, index_maps=False)
+        out.run(T, "c08", {"mol": {"atoms": m.atoms, "bonds": [list(b) for b in m.bonds]}, "mode": mode, "v2000": v2, "v3000": v3}, v2)
+        if len(out.violations) >= 3:
+            return
     n = 400 if tier == "quick" else 20000
     out.rule = ("abstract molecules (<=12 atoms incl. D/T) rendered as V2000 with charge codes or M CHG/M RAD lines (stale codes that must be superseded, "
                 "explicit zero entries, ISO entries with arbitrary values naming D/T atoms, 1-8 entries per line over shuffled lines, unrelated M/G/V lines; a quarter of the "
@@ -1117,6 +1142,12 @@ def wide_graph_spec(rnd, k):
         if rnd.random() < .4:
             d["mass"] = rnd.choice([13, 2, 250, 10 ** 20])
         nodes.append([big + i, d])
+    if k % 3 == 1 and nn >= 2:
+        # a label set with gaps (a graph from which atoms were removed): labels keep their order, the gaps grow
+        gap = 0
+        for i in range(nn):
+            gap += rnd.choice([0, 1, 2, 7])
+            nodes[i][0] = big + i + gap
     edges = []
     for i in range(nn):
         for j in range(i + 1, nn):
@@ -1192,7 +1223,7 @@ def gen_c06(T, tier, seed, budget, out: Outcome):
             for a in m2.atoms:
                 a["x"], a["y"], a["z"] = round(r1.uniform(-50, 50), 4), round(r1.uniform(-50, 50), 4), round(r1.uniform(-5, 5), 4)
         elif dim == "bond types":
-            m2.bonds = [(i, j, r1.choice([1, 2, 3, 4])) for i, j, t in m2.bonds]
+            m2.bonds = [(i, j, r1.choice([1, 2, 3, 4, 5, 6, 7, 8, 9, 10])) for i, j, t in m2.bonds]
         elif dim == "charges":
             for a in m2.atoms:
                 a.pop("chg", None)
